@@ -4,7 +4,7 @@
     C17: Proofs/Equivariance.v). *)
 From Coq Require Import List NArith String Bool Lia.
 From V Require Import Base.Strings Base.Result Model.Registry Model.Settings Model.Subst
-  Model.TypePath Model.Derives Model.Generate Model.Emit Model.Switches.
+  Model.TypePath Model.Derives Model.Generate Model.Emit Model.WellFormed Model.Switches.
 Import ListNotations.
 Open Scope string_scope. Open Scope list_scope.
 
@@ -137,10 +137,17 @@ Lemma tp_tokens_TArray alloc len o :
   Ok (["["] ++ t ++ [";"; String.append (N_to_string len) "usize"; "]"]).
 Proof. reflexivity. Qed.
 
+(** a compact field whose inner path is a tuple / an array panics ([parse_quote!] into a
+    [syn::TypePath]); the test does not look at any token *)
 Lemma tp_tokens_TCompact alloc i f c :
   tp_tokens alloc (TCompact i f c) =
-  let* t := tp_tokens alloc i in if f then Ok t else Ok (c ++ ["<"] ++ t ++ [">"]).
-Proof. reflexivity. Qed.
+  let* t := tp_tokens alloc i in
+  if f && tuple_or_array i then Panic "compact field: inner type is not a type path"
+  else if f then Ok t else Ok (c ++ ["<"] ++ t ++ [">"]).
+Proof. destruct f; [destruct i|]; reflexivity. Qed.
+
+Lemma tuple_or_array_map_tpath phi t : tuple_or_array (map_tpath phi t) = tuple_or_array t.
+Proof. destruct t; reflexivity. Qed.
 
 Lemma tp_tokens_TBitVec alloc o st b :
   tp_tokens alloc (TBitVec o st b) =
@@ -239,9 +246,9 @@ Proof.
     cbn [rmap bind]. rewrite !map_app, flat_map_map_tokens. cbn [map].
     rewrite !(phi_ok_base _ _ _ _ H) by reflexivity. reflexivity.
   - cbn [map_tpath tp_tokens]. apply (prim_tokens_map phi d c); exact H.
-  - cbn [map_tpath]. rewrite !tp_tokens_TCompact, IH.
+  - cbn [map_tpath]. rewrite !tp_tokens_TCompact, IH, tuple_or_array_map_tpath.
     destruct (tp_tokens alloc i) as [x|e|m]; [|reflexivity|reflexivity].
-    destruct f; cbn [rmap bind]; [reflexivity|].
+    destruct f; [destruct (tuple_or_array i)|]; cbn [andb rmap bind]; [reflexivity|reflexivity|].
     rewrite !map_app. cbn [map]. rewrite !(phi_ok_base _ _ _ _ H) by reflexivity. reflexivity.
   - cbn [map_tpath]. rewrite !tp_tokens_TBitVec, IHo, IHs.
     destruct (tp_tokens alloc o) as [x|e|m]; [|reflexivity|reflexivity].
